@@ -357,6 +357,9 @@ def subscript(I, obj, idx, node):
             raise AbsRaise(ExcValue('KeyError', (cidx,), site=node), site=node, explicit=False,
                            note='key %r not in dict' % (cidx,))
         # unknown key
+        for k_, v_ in reversed(getattr(obj, 'stored_unknown', [])):
+            if k_ is idx:
+                return v_
         if isinstance(idx, Unk) and obj.items and not obj.open:
             keys = frozenset(obj.items)
             sure = any(keys >= s for s in idx.in_sets)
@@ -368,9 +371,9 @@ def subscript(I, obj, idx, node):
                 c = I.choose(len(cands), 'key')
                 idx.pin(cands[c])
                 return obj.items[cands[c]]
-            return Unk('%s[?]' % obj.name, taint=tj(obj, idx), src=('item', obj, idx))
+            return Unk('%s[?]' % obj.name, taint=tj(obj), src=('item', obj, idx))
         I.may_raise(node, ['KeyError'], 'lookup with unknown key', (idx, obj))
-        return Unk('%s[?]' % obj.name, taint=tj(obj, idx), src=('item', obj, idx))
+        return Unk('%s[?]' % obj.name, taint=tj(obj), src=('item', obj, idx))
     if isinstance(obj, dict):
         if is_concrete(idx):
             if cidx in obj:
@@ -556,6 +559,9 @@ def derive_fresh(elem, name):
         u = Unk('%s' % name if elem.name is None else '%s.%s' % (elem.name, name), kinds=elem.kinds,
                 taint=elem.taint, src=('elem', elem, name))
         u.facts = set(elem.facts)
+        for a in ('piece_of', 'group_of', 'k1_record'):
+            if hasattr(elem, a):
+                setattr(u, a, getattr(elem, a))
         return u
     return elem
 
@@ -849,6 +855,40 @@ def compare(I, op, l, r, node):
             o = {'Lt': 'GtE', 'LtE': 'Gt', 'Gt': 'LtE', 'GtE': 'Lt'}[o]
         tgt.facts.add('%s%s' % ({'Lt': '<', 'LtE': '<=', 'Gt': '>', 'GtE': '>='}[o], other))
     return Unk('cond', kinds=['bool'], taint=tj(l, r), src=('cond', refine_ord))
+
+
+_RX_FACTS = {}
+
+
+def refine_regex(I, m, res):
+    """Guard on a regex result: record what a successful / failed match says about the data."""
+    _, rx, mode, data = m.src
+    rx = concrete(rx)
+    if not isinstance(data, Unk) or not isinstance(rx, Regex):
+        return
+    data.regex_guards = getattr(data, 'regex_guards', []) + [(rx, mode, res)]
+    if not res:
+        m.pin(None)
+        return
+    m.restrict(['Match'])
+    key = (rx, mode)
+    if key not in _RX_FACTS:
+        from sa import rx as RX
+        facts = set()
+        try:
+            L = RX.from_pattern(rx.pattern, rx.flags, mode='full' if mode == 'fullmatch' else 'match')
+            ascii_ = RX.sigma_star(L.N, range(128))
+            if RX.included(L, ascii_) is None:
+                facts.add('ascii-only')
+            isb = isinstance(rx.pattern, bytes)
+            if RX.included(L, RX.from_pattern(b'-?[0-9]+' if isb else '-?[0-9]+')) is None:
+                facts.add('digits')
+            if not L.accepts([]):
+                facts.add('truthy')
+        except AnalysisError:
+            pass
+        _RX_FACTS[key] = facts
+    data.facts |= _RX_FACTS[key]
 
 
 def call_builtin(I, fn, args, kwargs, node):
